@@ -152,6 +152,8 @@ def rules(ctx):
     from .C14 import reset_reachability, refresh_order
     reset_reachability(ctx, 'R03.3')
     refresh_order(ctx, 'R03.3')
+    from .C05 import derived_from_copy
+    derived_from_copy(ctx, 'R03.3')
     C02.record_not_shared(ctx, 'R03.4')
 
     # ---------------------------------------------------------------- R03.5
